@@ -107,7 +107,7 @@ def run(ctx):
             same = dim(self.unit) == dim(other.unit)
             if exc is not None:
                 ctx.count(f"postcondition_saw_raise/{label}/{type(exc).__name__}")
-                if not isinstance(exc, (TypeError, CNF)):
+                if not isinstance(exc, (TypeError, CNF)) and not same:
                     ctx.violation(f"C03:{label}:raised-{type(exc).__name__}", f"{label} raised {type(exc).__name__}: {exc}", case)
                 return
             if not same:
